@@ -306,9 +306,19 @@ int filter_tee_header (struct filter *chain)
 		lerr (_("error closing output file %s"),
 			env.outfilename != NULL ? env.outfilename : "<stdout>");
 
-	while (wait (0) > 0) ;
+	{
+		/* The header branch runs in our children: a header that could
+		 * not be produced must not end in a successful exit.
+		 */
+		int     child_status, failed = 0;
 
-	FLEX_EXIT (0);
+		while (wait (&child_status) > 0)
+			if (!WIFEXITED (child_status)
+			    || WEXITSTATUS (child_status) != 0)
+				failed = 1;
+
+		FLEX_EXIT (failed ? 1 : 0);
+	}
 	return 0;
 }
 
